@@ -403,3 +403,63 @@ def rule_int_results_normalised(ctx, rep, rid: str) -> None:
                     n += 1
                     rep.bad(rid, f"{f.qual}:return {r.value.id}", f"to_number returns an int operand as it is: an embedder value or constant beyond 2**53 enters arithmetic with more digits than a double", f"{f.module.rel}:{r.lineno}")
     rep.analysed["int_result_sites"] = n
+
+
+# ---- host rounding, min and max at the special points ----------------------------------------------------
+def rule_host_rounding_special_points(ctx, rep, rid: str) -> None:
+    """math.floor/ceil/trunc, int() and round() return host ints, which have no negative zero; the host's
+    min()/max() return their first argument when NaN is involved and do not order -0 below +0; floor(x + 0.5)
+    rounds 0.49999999999999994 to 1 because the addition itself rounds."""
+    rep.rule(rid, "a Math native that rounds a script number to a whole number restores the sign of a zero result, rounds half-way cases on the exact fraction (not after adding 0.5), and the min/max natives handle NaN and the two zeros themselves instead of delegating to the host's min()/max()", floor=5)
+    n = 0
+    for f in ctx.tree.funcs:
+        if isinstance(f.node, ast.Lambda) or f.module.name != "context" or f.parent is None or "math" not in f.parent.name.lower():
+            continue
+        nums = {t.id for a in f.own_nodes() if isinstance(a, ast.Assign) and any(isinstance(x, ast.Call) and norm(x.func).endswith("to_number") for x in ast.walk(a.value)) for t in a.targets if isinstance(t, ast.Name)}
+        if not nums:
+            continue
+        txt = " ; ".join(norm(s_) for s_ in f.body())
+        for c in f.own_nodes():
+            if not isinstance(c, ast.Call):
+                continue
+            fn = norm(c.func)
+            if fn in ("math.floor", "math.ceil", "math.trunc", "int", "round") and c.args and any(isinstance(x, ast.Name) and x.id in nums for x in ast.walk(c.args[0])):
+                n += 1
+                key = f"{f.qual}:{short(c, 30)}"
+                arg = c.args[0]
+                if isinstance(arg, ast.BinOp) and isinstance(arg.op, ast.Add) and any(isinstance(k, ast.Constant) and k.value == 0.5 for k in (arg.left, arg.right)):
+                    rep.bad(rid, key, f"{f.qual} rounds with {short(c, 30)}: the addition is itself rounded, so 0.49999999999999994 becomes 1 and odd whole numbers above 2**52 move to their even neighbour", f"{f.module.rel}:{c.lineno}")
+                    continue
+                v = next(x.id for x in ast.walk(arg) if isinstance(x, ast.Name) and x.id in nums)
+                zero_kept = "-0.0" in txt or "copysign" in txt
+                zero_returned_early = any(isinstance(i, ast.If) and f"{v} == 0" in norm(i.test) and i.body and isinstance(i.body[-1], ast.Return) and i.lineno < c.lineno for i in f.own_nodes())
+                needs_neg_zero = fn != "math.floor"  # floor(x) is 0 only for x in [0, 1) and for -0 itself
+                if (zero_kept or not needs_neg_zero) and (zero_returned_early or zero_kept):
+                    rep.ok(rid, key)
+                elif zero_returned_early and not needs_neg_zero:
+                    rep.ok(rid, key)
+                else:
+                    rep.bad(rid, key, f"{f.qual} returns the host int {short(c, 30)}: a zero result has lost its sign (Math.{f.name.replace('_fn', '')} of a number in (-1, 0], and of -0 itself, is -0 in ECMAScript; 1/result tells them apart)", f"{f.module.rel}:{c.lineno}")
+            if fn in ("min", "max") and c.args and not c.keywords:
+                a0 = c.args[0]
+                from_script = any(isinstance(x, ast.Name) and x.id in nums for x in ast.walk(a0))
+                if from_script:
+                    n += 1
+                    key = f"{f.qual}:{short(c, 30)}"
+                    rep.bad(rid, key, f"{f.qual} delegates to the host's {fn}(): with NaN among the arguments the host returns whichever comes first (Math.{fn}(1, NaN) is then 1, not NaN) and -0/+0 are not ordered", f"{f.module.rel}:{c.lineno}")
+        if f.name in ("min_fn", "max_fn"):
+            n += 1
+            key = f"{f.qual}:special-points"
+            if ("!=" in txt or "isnan" in txt) and "copysign" in txt:
+                rep.ok(rid, key)
+            else:
+                rep.bad(rid, key, f"{f.qual} does not treat NaN and the sign of zero itself", f.loc)
+        if f.name == "sign_fn":
+            n += 1
+            key = f"{f.qual}:zero"
+            rets = [r.value for r in f.own_nodes() if isinstance(r, ast.Return) and r.value is not None]
+            if any(isinstance(r, ast.Name) and r.id in nums for r in rets) or "-0.0" in txt or "copysign" in txt:
+                rep.ok(rid, key)
+            else:
+                rep.bad(rid, key, f"{f.qual} returns the int 0 for both zeros: Math.sign(-0) is -0", f.loc)
+    rep.analysed["math_rounding_sites"] = n
